@@ -14,7 +14,7 @@ class C10(Spec):
     prop = "C10"
     needs_factx = True
     extra_generated = ["Frames.lean"]
-    lean_modules = ["SonicSpec.Props.C10", "SonicSpec.Props.C10Layout"]
+    lean_modules = ["SonicSpec.Props.C10", "SonicSpec.Props.C10Layout", "SonicSpec.Props.C10Code"]
     level = "proof"
     rule = ("pc-value tables: GetPcspTable-shaped and random well-formed tables (varint length boundaries 127/128, 16383/16384, "
             "2^21, 2^28; int32 extremes and wrap) plus a separate stream of tables that leave the precondition (repeated value, "
@@ -39,7 +39,13 @@ class C10(Spec):
         "Nothing is proved about them.",
         "NOT MODELLED: which local slots hold pointers. localPtrs is empty in all three frames, so the collector never looks at "
         "_VAR_* slots; that every pointer held there is also reachable from an argument word or the heap is an assumption.",
-        "NOT MODELLED: that the pc-sp table GetPcspTable derives from the instruction stream matches what the emitted code does to SP.",
+        "GetPcspTable is modelled on an abstract instruction stream (size + effect on SP). Proved for every body and every instruction "
+        "size: for the shape SUBQ $n,SP; body; ADDQ $n,SP; RET; tail the runtime reads back the SP displacement of each region; "
+        "regenerated facts show the three assemblers emit that shape with n = the frame size given to Load and write SP nowhere else. "
+        "NOT MODELLED: instruction encodings and sizes (golang-asm), and that the out-of-line tail is entered only from the body.",
+        "The gcslot stream is a FAILING-INPUT SEARCH aimed at single pointer slots (the vk argument word, _Stack.ep, callback receivers, "
+        "the encoder's buffer and state stack): finalizer and poisoned-reuse probes inside callbacks, results compared with a quiet run. "
+        "It finds the two seeded defects with a replay; a clean run is still not a proof.",
         "The gcstress streams only EXERCISE these assumptions (exploration, not proof): Marshal/Unmarshal workloads whose "
         "Marshaler/Unmarshaler/TextMarshaler/TextUnmarshaler callbacks call runtime.GC, debug.Stack, runtime.Callers + "
         "CallersFrames + FuncForPC, and recurse to force stack copies, under GOGC=1 and SONIC_SYNC_GC=1, with results compared "
@@ -69,13 +75,15 @@ class C10(Spec):
         ]
         if self.harness_tags():
             st.append(Stream("stackmap+loadtabs", "c10.stackmap", 400 if q else 30000))
-        st.append(Stream("gcstress(exploration)", "c10.gcstress", 24 if q else 200, envs=gc_envs, timeout=20.0, use_model=False))
+        # failing-input search aimed at the pointer slots the stack maps / layout theorems speak about
+        st.append(Stream("gcslot(pointer-slot search)", "c10.gcslot", 8 if q else 120, envs=gc_envs, timeout=30.0, use_model=False))
+        st.append(Stream("gcstress(exploration)", "c10.gcstress", 12 if q else 200, envs=gc_envs, timeout=20.0, use_model=False))
         st.append(Stream("gcstress-syncgc(exploration)", "c10.gcstress.sync", 2 if q else 10,
                          envs={"syncgc": {"SONIC_SYNC_GC": "1"}}, timeout=180.0, use_model=False))
         return st
 
     def model_line(self, case, sonic):
-        if case[0] == "gcstress":
+        if case[0] in ("gcstress", "gcslot"):
             return None
         return "\t".join(case)
 
@@ -98,7 +106,7 @@ class C10(Spec):
         for env, s in sonic.items():
             sv = s.get("sonic")
             if sv in ("CRASH", "HANG", "PANIC") and not (op in ("pcdata", "pcline", "loadtabs") and sv == "PANIC"):
-                kind = "crash" if op != "gcstress" else "runtime-crash-in-generated-code"
+                kind = "crash" if op not in ("gcstress", "gcslot") else "runtime-crash-in-generated-code"
                 out.append((kind, "%s: %s" % (env, s)))
                 continue
             if sv == "unsupported" or sv is None:
@@ -106,6 +114,10 @@ class C10(Spec):
             if op == "gcstress":
                 if sv != "ok":
                     out.append(("value-corrupted-under-gc", "%s: %s" % (env, s)))
+                continue
+            if op == "gcslot":
+                if sv != "ok":
+                    out.append(("pointer-slot-not-traced", "%s: %s" % (env, s)))
                 continue
             m = model.get(env) or {}
             if "model" not in m or m["model"] == "unsupported":
@@ -148,6 +160,11 @@ class C10(Spec):
             return True
         if op == "stackmap":
             return case[1] != "-"
+        if op == "gcslot":
+            for s in sonic.values():
+                if s.get("sonic") == "ok" and int(s.get("calls", "0") or 0) > 0 and "note" not in s:
+                    return True
+            return False
         if op == "gcstress":
             for s in sonic.values():
                 if s.get("sonic") == "ok" and (int(s.get("jitframes", "0") or 0) > 0 or int(s.get("bytes", "0") or 0) > 100):
